@@ -87,6 +87,7 @@ def verify_function(key, tier='quick', keep_terms=False, discharge=True):
             st.old_locals = dict(env)
             entry_env[0] = dict(env)
             st.mod_targets = calls.eval_modifies(st, c, env)
+            st.frames = [(st.mod_targets, st.fn_alloc0)]
             st.locals = dict(env)
             outcome = None
             try:
